@@ -197,6 +197,10 @@ class QuantileLinearRegression(LinearRegression):
         pred = self.predict(X)
 
         if self.quantile != 0.5:
+            y = numpy.asarray(y)
+            if y.shape != pred.shape and y.size == pred.size:
+                # a list, a column vector
+                y = y.reshape(pred.shape)
             epsilon, mult = QuantileLinearRegression._epsilon(
                 y, pred, self.quantile, sample_weight
             )
